@@ -173,6 +173,43 @@ mod proofs {
     check_len(6);
   }
 
+  /// the per-occurrence kernel alone: `split_first_meta_var` on every string that starts
+  /// with the sigil
+  #[kani::proof]
+  #[kani::unwind(9)]
+  fn c07_split_first_meta_var_n7() {
+    use ast_grep_core::replacer::verif_hooks::split_first_meta_var;
+    let (mut buf, len) = any_bytes::<7, 6>(b"$AT_1b");
+    kani::assume(len >= 1);
+    buf[0] = b'$';
+    let t = &buf[..len];
+    let tr = ["T".to_string()];
+    let got = split_first_meta_var(as_str(t, len), '$', &tr);
+    // reference: up to three sigils, then a maximal run of name chars
+    let mut k = 1;
+    while k < 3 && k < len && t[k] == b'$' {
+      k += 1;
+    }
+    let mut e = k;
+    while e < len && is_name_char(t[e]) {
+      e += 1;
+    }
+    kani::cover!(e > k && k == 3);
+    kani::cover!(e == k && len > 2);
+    kani::cover!(e > k + 1 && k == 2);
+    match got {
+      None => assert!(e == k),
+      Some((kind, name, consumed)) => {
+        assert!(e > k && consumed == e && name.as_bytes() == &t[k..e]);
+        let is_t = e == k + 1 && t[k] == b'T';
+        let want = if k == 3 { 1 } else if is_t { 2 } else { 0 };
+        assert!(kind == want);
+        std::mem::forget(name);
+      }
+    }
+    std::mem::forget(tr);
+  }
+
   #[kani::proof]
   #[kani::unwind(7)]
   fn c07_template_scan_n5() {
